@@ -37,8 +37,10 @@ def mask_hex(k):
 
 
 # values / images the generators avoid (the serialisation changes shape there; out of scope of C15)
-AVOID_VALUES = {("DHCPv6", "msg_type"): {"12", "13"}}          # relay-forward / relay-reply: different header layout
-FIX_IMAGE = {"DHCPv6": lambda h: ("01" + h[2:]) if h[:2] in ("0c", "0d") else h}
+AVOID_VALUES = {("DHCPv6", "msg_type"): {"12", "13"},          # relay-forward / relay-reply: different header layout
+                ("ICMPv6", "type"): {"1", "3", "143"}}         # RFC 4884 length byte / MLDv2 record count are derived there
+FIX_IMAGE = {"DHCPv6": lambda h: ("01" + h[2:]) if h[:2] in ("0c", "0d") else h,
+             "ICMPv6": lambda h: ("80" + h[2:]) if h[:2] in ("01", "03", "8f") else h}
 
 
 def rand_image(rng, L, default):
@@ -239,6 +241,7 @@ def run(chk):
         "derived runs (lengths, checksums, header-length nibbles; Spec.classes) are masked out of the serialisation comparison",
         "enum-typed setters are exercised with values of the field's width only",
         "DHCPv6: relay message types 12/13 (different header layout) are not generated",
+        "ICMPv6: types 1, 3 (RFC 4884 length byte derived) and 143 (MLDv2 record count derived) are not generated",
     ]
     chk.trusted += ["translator/gen_layout.py (accessor recognition by regex; layout probe compiled against the current headers)",
                     "generated harness harness/c15_fields.cpp + generators in checks/C15.py",
